@@ -1,7 +1,7 @@
 (** C19 — the hand model's rule tables are the tables of src/valid/validate.cpp:
     the description [model_rules] equals the value regenerated from the source, and every
     executable table of Validator.v is the interpretation of its description. *)
-From Coq Require Import ZArith Bool String List.
+From Coq Require Import ZArith Bool String List Lia.
 Require Import NixV.Base.Prelude NixV.Base.F64 NixV.Gen.GenValidate NixV.Valid.Validator NixV.Valid.ValidRules.
 Import ListNotations.
 Local Open Scope string_scope.
@@ -83,6 +83,15 @@ Section Tables.
             (ent_base (lookup "" "Feature" model_bases) (f_ent f)).
   Proof. destruct f as [e [d|] [l|]]; reflexivity. Qed.
 
+  (** the two functions File::validate never calls *)
+  Lemma table_dimension idx :
+    validate_dimension idx = table rules "Dimension" unknown_id (env_dimension idx).
+  Proof. reflexivity. Qed.
+
+  Lemma table_file h :
+    validate_file h = table rules "File" (h_id h) (env_file h).
+  Proof. destruct h as [id o [c|] v f l]; reflexivity. Qed.
+
   (** all of them: every table the walk of File::validate uses is the interpretation of its description *)
   Theorem tables_are_interpretations :
     (forall e, validate_entity e = table rules "validate_entity" (e_id e) (env_entity e))
@@ -119,3 +128,31 @@ Section Tables.
           (conj table_mtag (conj table_property (conj table_range (conj table_sampled (conj table_set table_feature)))))))))).
   Qed.
 End Tables.
+
+(** the generic descriptor rule is the first rule of each typed descriptor table, with another message: a
+    descriptor reached through DataArray::dimensions() (index >= 1) is clean for valid::validate(const Dimension&) *)
+Lemma validate_dimension_clean idx : 1 <= idx -> validate_dimension idx = rnil.
+Proof.
+  intros H. unfold validate_dimension, must, notSmaller. replace (idx <? 1) with false by lia. reflexivity.
+Qed.
+
+(** a file created by the library (open, creation time set, version, format and location present) is clean
+    for valid::validate(const File&) *)
+Lemma validate_file_clean h :
+  h_open h = true -> (exists c, h_created h = Some c /\ c <> 0) -> h_version_n h <> 0 -> h_format h <> "" -> h_location h <> "" ->
+  validate_file h = rnil.
+Proof.
+  intros Ho [c [Hc Hz]] Hv Hf Hl. unfold validate_file, could, must, should, id_bool, num_notFalse, count_notEmpty, str_notEmpty.
+  rewrite Ho, Hc. apply Z.eqb_neq in Hz, Hv. apply String.eqb_neq in Hf, Hl. rewrite Hz, Hv, Hf, Hl. reflexivity.
+Qed.
+
+(** Result accessors and concat *)
+Lemma has_errors_rconcat a b : has_errors (rconcat a b) = has_errors a || has_errors b.
+Proof. unfold has_errors. cbn. destruct (errors a); reflexivity. Qed.
+Lemma has_warnings_rconcat a b : has_warnings (rconcat a b) = has_warnings a || has_warnings b.
+Proof. unfold has_warnings. cbn. destruct (warnings a); reflexivity. Qed.
+Lemma result_ok_rconcat a b : result_ok (rconcat a b) = result_ok a && result_ok b.
+Proof.
+  unfold result_ok. rewrite has_errors_rconcat, has_warnings_rconcat.
+  destruct (has_errors a), (has_errors b), (has_warnings a), (has_warnings b); reflexivity.
+Qed.
